@@ -57,7 +57,7 @@ func VF_C05_Exchange() {
 	vf.Assert(vf.All(after.nOps == before.nOps+k, after.end == st.e+uint64(k)), "C06 exactly the pending operations are appended to the log")
 	for i := 0; i < k; i++ {
 		od := w.store.Operations[before.nOps+i]
-		vf.Assert(vf.All(od.Sseq == st.e+uint64(i)+1, od.OpID.Seq == st.cx+uint64(i)+1, od.OpID.CUID == vfCUIDx), "C06 in issue order, behind the log")
+		vf.Assert(vf.All(uint64(od.Sseq) == st.e+uint64(i)+1, od.OpID.Seq == st.cx+uint64(i)+1, od.OpID.CUID == vfCUIDx), "C06 in issue order, behind the log")
 	}
 	orda.VFApplyPack(cnt, pack)
 	vf.Quiesce()
